@@ -23,6 +23,7 @@ import Proofs.ProbReal
 import PysersicModel.Prob.MultiBand
 import PysersicModel.Gen.Consts
 import Props.C12
+import Props.C05
 import Mathlib.Analysis.SpecialFunctions.Exp
 
 namespace Pysersic.Props.C15
@@ -144,6 +145,20 @@ theorem relabel_pairs_injective :
     ∀ b' ∈ ["g", "r", "1", "2", "e", "y", "ps", "eff", "F444W", "Band_0", "Band_1"],
     ∀ p ∈ allNames, ∀ p' ∈ allNames, p ++ "_" ++ b = p' ++ "_" ++ b' → p = p' ∧ b = b' := by
   decide +kernel
+
+/-- **general form**: for band names without an underscore, (parameter, band) ↦ `p_band` is injective for
+arbitrary parameter names (underscores allowed) — every relabelled name maps back to exactly one
+parameter and band -/
+theorem relabel_pairs_injective_general (p p' b b' : String) (hb : '_' ∉ b.toList) (hb' : '_' ∉ b'.toList)
+    (h : p ++ "_" ++ b = p' ++ "_" ++ b') : p = p' ∧ b = b' := by
+  have h1 := congrArg String.toList h
+  simp only [String.toList_append] at h1
+  have h2 := congrArg List.reverse h1
+  have hu : ("_" : String).toList = ['_'] := rfl
+  simp only [List.reverse_append, hu, List.reverse_cons, List.reverse_nil, List.nil_append, List.append_assoc,
+    List.singleton_append] at h2
+  obtain ⟨e1, e2⟩ := C05.split_first_underscore _ _ _ _ (by simpa using hb) (by simpa using hb') h2
+  exact ⟨String.toList_injective (List.reverse_injective e2), String.toList_injective (List.reverse_injective e1)⟩
 
 /-- collisions exist when a band name begins with a parameter tail: `n_1` + `_2_g` = `n_1_2` + `_g`
 (multi-source names) and `r` + `_eff_1` … — numpyro rejects duplicate site names, so these fail loudly -/
